@@ -7,7 +7,7 @@ CONST_GROUPS = ["security", "message", "cipher", "license"]
 RULE = ("one case = one broker session: keygen requests over every parent kind (master, extendable with several permission "
         "masks, ordinary, expired, foreign contract, foreign master), type strings over subsets of rwslpex and junk, ttl 0 / "
         "positive / negative, channels valid / invalid / wildcard / with '#/'; the minted key is decrypted and every field "
-        "compared (salt free, expiry within a minute), then the new key is used (subscribe, publish, link with auto-subscribe, "
+        "compared; also keygen.Service.CreateKey called directly, as the HTTP keygen page does (ckey) (salt free, expiry within a minute), then the new key is used (subscribe, publish, link with auto-subscribe, "
         "second-level extension) and the broker's answers compared. non-trivial = distinct (op, answer)")
 TRUSTED = ["crypto/rand salt of minted keys is free; time.Now within a minute of the session start"]
 ASSUMPTIONS = ["requests are issued one at a time"]
@@ -53,6 +53,14 @@ def session(rng):
             ttl = rng.choice([0, 0, 600, 3600, -600, 2147483647, -2147483648])
             name = "N%d" % i
             s.ops.append("keygen %s %d %s %s %s %d %s" % (c, s.nextmid(), parent, hx(ch), hx(rng.choice(TYPES)), ttl, name))
+            minted.append(name)
+        elif r == 6:
+            # the minting function called directly (HTTP keygen page): no request handler in front of it
+            parent = rng.choice(["KM", "KM", "KME", "KME", "KMF", "KMS", "KM3", "KA", "KX", "KXE"] + minted[-1:])
+            ch = rng.choice([chan(rng), b"a/#/", b"#/", b"a/b", b"", b"a/+/"])
+            exp = rng.choice([0, 0, s.now + 600, s.now - 600, s.now + 86400 * 365])
+            name = "N%d" % i
+            s.ops.append("ckey %s %s %d %d %s" % (parent, hx(ch), rng.choice([R, R | W, R | W | S | L | P, 255, 1, R | E, 0]), exp, name))
             minted.append(name)
         elif minted:
             k = rng.choice(minted)
